@@ -246,7 +246,7 @@ def run(ck, ctx):
     def r082():
         kret = E.kernel_ret
         den, ang = I.snapshot(I.elem(kret, 0), E.st), I.snapshot(I.elem(kret, 1), E.st)
-        dcalls = [c for c in I.call_log if c[0].qualname == "distance_to_detector"]
+        dcalls = E.kernel_inner("distance_to_detector")
         ck.floor("R08.2", len(dcalls), 2, "calls of the shower-to-detector distance function in the kernel")
         if len(dcalls) != 2:
             ck.ob("R08.2", "exactly two distance evaluations (reference orbit, detector)", False, den,
